@@ -54,7 +54,7 @@ fn encode_dq(s: &str) -> String {
 
 /// One expression source (naively parenthesised) per execution.
 fn gen_expr(c: &mut Ctx, tier: Tier) -> Option<String> {
-    let fam = c.choose(15, "family");
+    let fam = c.choose(16, "family");
     Some(match fam {
         0 => c.pick(LEAVES, "leaf").to_string(),
         1 => {
@@ -192,6 +192,20 @@ fn gen_expr(c: &mut Ctx, tier: Tier) -> Option<String> {
                 s.insert(0, '\u{1}');
             }
             s
+        }
+        15 => {
+            // expressions whose last part sits at every column around the formatter's line widths (50, 75, 112):
+            // a name of every length 1..=70 in front of a two-sided range, a call, a binary expression
+            let k = 1 + c.choose(70, "name-length");
+            let name = "c".repeat(k);
+            match c.choose(6, "tail") {
+                0 => format!("({name} | in @2015-01-01..@2020-12-31)"),
+                1 => format!("({name} | in 1000000..2000000)"),
+                2 => format!("({name} | in @2024-01-01T00:00:00..zz)"),
+                3 => format!("{name} + 1000000 * 2000000"),
+                4 => format!("f {name} x:1000000 2000000"),
+                _ => format!("{{{name}, y = 1000000..2000000}}"),
+            }
         }
         _ => {
             // long operands that force wrapping
@@ -489,7 +503,7 @@ pub fn run(tier: Tier) -> i32 {
     }
     run.states = sources.len() as u64;
     run.transitions = st.points;
-    run.set("bounds", json!({"expression_families": 15, "compositional_contexts": CONTEXTS.len(), "compositional_depth": tier.pick(2, 3), "binary_operators": BINOPS, "leaves": LEAVES.len(), "embeddings": tier.pick(4, EMBEDDINGS.len()), "statements": STATEMENTS.len(), "seeds": "integration queries + book examples + hand seeds", "string_alphabet": "a ' \" \\ LF { } é, length <= 2 (quick) / 3 (thorough)"}));
+    run.set("bounds", json!({"expression_families": 16, "compositional_contexts": CONTEXTS.len(), "compositional_depth": tier.pick(2, 3), "binary_operators": BINOPS, "leaves": LEAVES.len(), "embeddings": tier.pick(4, EMBEDDINGS.len()), "statements": STATEMENTS.len(), "seeds": "integration queries + book examples + hand seeds", "string_alphabet": "a ' \" \\ LF { } é, length <= 2 (quick) / 3 (thorough)"}));
     run.set("rule", json!("source s0 (naively parenthesised) → p0 = parse(s0), s1 = format(p0), p1 = parse(s1): p1 must exist and equal p0 modulo spans and doc comments, format(p1) = s1, and compile(s1) = compile(s0) where s0 compiles; sources that do not parse are outside the domain"));
     run.assume("syntax trees are compared through their serde JSON with `span` and `doc_comment` removed");
     run.finish()
